@@ -430,15 +430,15 @@ func renderProgram(f *ast.File, fset *token.FileSet, p *RunPkg) (string, error) 
 	// ctx reader
 	switch fw {
 	case "chi", "gorilla", "stdhttp":
-		w("func readScopes(r *http.Request) map[string]interface{} {\n\tm := map[string]interface{}{}\n\tfor k, key := range scopeKeys {\n\t\tif v := r.Context().Value(key); v != nil {\n\t\t\tm[k] = v\n\t\t}\n\t}\n\treturn m\n}\n")
+		w("func readScopes(r *http.Request) map[string]interface{} {\n\tm := map[string]interface{}{}\n\tfor k, key := range scopeKeys {\n\t\tif v := r.Context().Value(key); v != nil {\n\t\t\tm[k] = takeScopes(v)\n\t\t}\n\t}\n\treturn m\n}\n")
 	case "echo":
-		w("func readScopes(c echo.Context) map[string]interface{} {\n\tm := map[string]interface{}{}\n\tfor k, key := range scopeKeys {\n\t\tif v := c.Get(fmt.Sprint(key)); v != nil {\n\t\t\tm[k] = v\n\t\t}\n\t}\n\treturn m\n}\n")
+		w("func readScopes(c echo.Context) map[string]interface{} {\n\tm := map[string]interface{}{}\n\tfor k, key := range scopeKeys {\n\t\tif v := c.Get(fmt.Sprint(key)); v != nil {\n\t\t\tm[k] = takeScopes(v)\n\t\t}\n\t}\n\treturn m\n}\n")
 	case "gin":
-		w("func readScopes(c *gin.Context) map[string]interface{} {\n\tm := map[string]interface{}{}\n\tfor k, key := range scopeKeys {\n\t\tif v, ok := c.Get(fmt.Sprint(key)); ok {\n\t\t\tm[k] = v\n\t\t}\n\t}\n\treturn m\n}\n")
+		w("func readScopes(c *gin.Context) map[string]interface{} {\n\tm := map[string]interface{}{}\n\tfor k, key := range scopeKeys {\n\t\tif v, ok := c.Get(fmt.Sprint(key)); ok {\n\t\t\tm[k] = takeScopes(v)\n\t\t}\n\t}\n\treturn m\n}\n")
 	case "fiber":
-		w("func readScopes(c *fiber.Ctx) map[string]interface{} {\n\tm := map[string]interface{}{}\n\tfor k, key := range scopeKeys {\n\t\tif v := c.Context().UserValue(key); v != nil {\n\t\t\tm[k] = v\n\t\t}\n\t}\n\treturn m\n}\n")
+		w("func readScopes(c *fiber.Ctx) map[string]interface{} {\n\tm := map[string]interface{}{}\n\tfor k, key := range scopeKeys {\n\t\tif v := c.Context().UserValue(key); v != nil {\n\t\t\tm[k] = takeScopes(v)\n\t\t}\n\t}\n\treturn m\n}\n")
 	case "iris":
-		w("func readScopes(c iris.Context) map[string]interface{} {\n\tm := map[string]interface{}{}\n\tfor k, key := range scopeKeys {\n\t\tif v := c.Values().Get(fmt.Sprint(key)); v != nil {\n\t\t\tm[k] = v\n\t\t}\n\t}\n\treturn m\n}\n")
+		w("func readScopes(c iris.Context) map[string]interface{} {\n\tm := map[string]interface{}{}\n\tfor k, key := range scopeKeys {\n\t\tif v := c.Values().Get(fmt.Sprint(key)); v != nil {\n\t\t\tm[k] = takeScopes(v)\n\t\t}\n\t}\n\treturn m\n}\n")
 	}
 
 	// the stub
